@@ -55,6 +55,12 @@ pub trait Service<Request>: Sized {
         ensures
             final(self).calls() == old(self).calls().push(req),
             f.awaited() ==> f@ == provider_answer::<Self, Request, Self::Response, Self::Error>(*old(self), req);
+    /// `ServiceExt::ready`: resolves when `poll_ready` returned; the service is ready only if that result was Ok
+    type ReadyFuture: Future<Output = Result<(), Self::Error>>;
+    fn ready(&mut self) -> (f: Self::ReadyFuture)
+        ensures
+            final(self).calls() == old(self).calls(),
+            f.awaited() ==> (f@ is Ok ==> final(self).is_ready());
     /// `ServiceExt::oneshot`: waits for `poll_ready`, then calls the service exactly once
     fn oneshot(&mut self, req: Request) -> (f: Self::Future)
         ensures
